@@ -10,8 +10,8 @@
  *   pexact r|d NMAX    the same calls with an EXACT-size heap allocation in a forked child under ASan; answer
  *                      `none` or `crash n:kind,n:kind,..[,more]` (after a report the sweep resumes at n+1; it
  *                      stops after 48 reports)
- *   pback r|d          hostlist_create(reference text) compared host by host (hostlist_shift on copies) with
- *                      the current list:  same COUNT | diff I HEXA HEXB | null:ERRNO:FATAL | no-reference
+ *   pback r|d          hostlist_create(reference text) compared host by host (the hosts the range records of
+ *                      both lists denote) with the current list:  same COUNT | diff I HEXA HEXB | null:ERRNO:FATAL | no-reference
  */
 #include <sys/mman.h>
 
@@ -170,12 +170,36 @@ static void p_exact(hostlist_t hl, int kind, const char *nm)
     munmap((void *) prog, 4096);
 }
 
+/* cursor over the hosts the range RECORDS of a list denote (prefix + zero-padded number), read straight from the
+ * data structure: hostlist_shift/next/nth are not used because they cut long numbers (properties C01/C16) */
+struct p_cur { hostlist_t h; int i; unsigned long j; int started; };
+static char *p_cur_next(struct p_cur *c)
+{
+    hostrange_t r;
+    char *name;
+    size_t sz;
+    if (c->i >= c->h->nranges)
+        return NULL;
+    r = c->h->hr[c->i];
+    if (!c->started) { c->j = r->lo; c->started = 1; }
+    sz = strlen(r->prefix) + (size_t) (r->width > 0 ? r->width : 0) + 32;
+    name = malloc(sz);
+    if (r->singlehost)
+        snprintf(name, sz, "%s", r->prefix);
+    else
+        snprintf(name, sz, "%s%0*lu", r->prefix, r->width, c->j);
+    if (r->singlehost || c->j >= r->hi) { c->i++; c->started = 0; }
+    else c->j++;
+    return name;
+}
+
 static void p_back(hostlist_t hl, int kind)
 {
     ssize_t rret;
     size_t rlen;
     char *ref = p_reference(hl, kind, &rret, &rlen);
-    hostlist_t h2, c1;
+    hostlist_t h2;
+    struct p_cur ca, cb;
     long i = 0;
     if (!ref || rret < 0) { printf("no-reference\n"); free(ref); return; }
     h2 = do_create(ref);
@@ -184,9 +208,12 @@ static void p_back(hostlist_t hl, int kind)
         free(ref);
         return;
     }
-    c1 = hostlist_copy(hl);
+    memset(&ca, 0, sizeof(ca));
+    memset(&cb, 0, sizeof(cb));
+    ca.h = h2;
+    cb.h = hl;
     for (;; i++) {
-        char *a = hostlist_shift(h2), *b = hostlist_shift(c1);
+        char *a = p_cur_next(&ca), *b = p_cur_next(&cb);
         if (!a && !b) { printf("same %ld\n", i); break; }
         if (!a || !b || strcmp(a, b) != 0) {
             printf("diff %ld ", i);
@@ -194,15 +221,14 @@ static void p_back(hostlist_t hl, int kind)
             printf(" ");
             if (b) puthex(stdout, b); else printf("null");
             printf("\n");
-            if (a) hl_free(a);
-            if (b) hl_free(b);
+            free(a);
+            free(b);
             break;
         }
-        hl_free(a);
-        hl_free(b);
+        free(a);
+        free(b);
     }
     hostlist_destroy(h2);
-    hostlist_destroy(c1);
     free(ref);
 }
 
